@@ -120,6 +120,10 @@ def signal_enumeration(world, op, work, budget, r, evaluate, sigs=("INT", "TERM"
             lo = None
     if lo is not None:
         dense.append((lo, total))
+    stall = getattr(inv0, "stall_cps", None)
+    if stall:
+        # ... and where the main thread sits in a write() to its own stalled stdout
+        dense = [(min(stall), max(stall))] * 3 + dense
     ks, exhaustive = choose_ks(total, budget, r, dense or [(1, total)])
     records = []
     for k in ks:
